@@ -2947,14 +2947,25 @@ def invocation_mutex_table(ck, mod):
         if head not in _MAPPING_MAKERS:
             continue
         locky = _makes_lock(ck.repo, mod, v)
+        if not locky and isinstance(v, ast.Call) and head == "defaultdict" and v.args:
+            # the factory given by name: defaultdict(RLock), defaultdict(_InvocationMutex)
+            f0 = v.args[0]
+            locky = _makes_lock(ck.repo, mod, ast.Call(func=f0, args=[], keywords=[]))
         if not locky:
             for fi in mod.all_funcs():
+                def stored_lock(val, fi=fi):
+                    if _makes_lock(ck.repo, mod, val):
+                        return True
+                    if isinstance(val, ast.Name):   # `m = RLock()` ... `TABLE[k] = m`
+                        return any(isinstance(a, ast.Assign) and any(isinstance(t, ast.Name) and t.id == val.id for t in a.targets)
+                                   and _makes_lock(ck.repo, mod, a.value) for a in A.walk_body(fi.node))
+                    return False
                 for n in A.walk_body(fi.node):
                     if isinstance(n, ast.Assign) and any(isinstance(t, ast.Subscript) and isinstance(t.value, ast.Name) and t.value.id == name for t in n.targets) \
-                            and _makes_lock(ck.repo, mod, n.value):
+                            and stored_lock(n.value):
                         locky = True
                     elif isinstance(n, ast.Call) and A.call_attr(n) == "setdefault" and isinstance(A.call_recv(n), ast.Name) and A.call_recv(n).id == name \
-                            and len(n.args) == 2 and _makes_lock(ck.repo, mod, n.args[1]):
+                            and len(n.args) == 2 and stored_lock(n.args[1]):
                         locky = True
         if locky:
             tables.append(name)
